@@ -167,3 +167,75 @@ func ruleT4(c *an.Ctx) {
 	})
 	c.Floor("T4", "non-constant results of (*MergeExp).HasRef", n, 1)
 }
+
+// T5: unwrapping a map.  In a TypeId the array dimension is the outer one (`map<int>[]` is
+// {ArrayDim:1, MapDim:1}): the element type of a collection is obtained by peeling ArrayDim first
+// and only a TypeId without array dimension is turned into its map value type by the idiom
+//
+//	id.ArrayDim = id.MapDim - 1 ; id.MapDim = 0
+//
+// which overwrites ArrayDim.  Applied while ArrayDim > 0 it drops the outer array: the element of
+// `map<int>[]` becomes `int` and `split` of such a value type-checks against the wrong parameter type.
+// Necessary condition: every store of (load of TypeId.MapDim) - 1 into a TypeId.ArrayDim field is
+// dominated - in its function, or at every call of a private helper - by a test that a
+// TypeId.ArrayDim is zero (== 0, <= 0, < 1, or the false edge of > 0 / != 0).
+func ruleT5(c *an.Ctx) {
+	p := c.P
+	arr := p.Field(pkgSyntax, "TypeId", "ArrayDim")
+	mp := p.Field(pkgSyntax, "TypeId", "MapDim")
+	if arr == nil || mp == nil {
+		c.Undecided("T5", "anchor(TypeId.ArrayDim, TypeId.MapDim)", token.NoPos, "field not found")
+		return
+	}
+	zero := func(r an.Rel) bool {
+		if !an.LoadsField(r.X, arr) {
+			return false
+		}
+		switch r.Op {
+		case token.EQL, token.LEQ:
+			return an.IsIntConst(r.Y, 0)
+		case token.LSS:
+			return an.IsIntConst(r.Y, 1)
+		}
+		return false
+	}
+	n := 0
+	for _, fn := range p.FuncsOf(pkgSyntax) {
+		for _, st := range an.StoresToField(fn, arr) {
+			b, ok := an.Strip(st.Val).(*ssa.BinOp)
+			if !ok || b.Op != token.SUB || !an.LoadsField(b.X, mp) || !an.IsIntConst(b.Y, 1) {
+				continue
+			}
+			n++
+			g := guardedInFamily(p, familyOf(p, an.Outermost(st.Parent()), 2), st, zero, 0)
+			if !g {
+				// the site may sit in a helper shared by several callers: every call must be guarded
+				g = guardedAtAllCalls(p, st.Parent(), zero, 0)
+			}
+			c.Check("T5", "map-unwrapped-only-without-array-dimension@"+an.FnName(st.Parent()), st.Pos(), g,
+				"ArrayDim is overwritten with MapDim-1 (the map's value type) without a preceding test that the type has no array dimension left: the outer array of map<T>[] is dropped and its element is taken to be T")
+		}
+	}
+	c.Floor("T5", "stores of MapDim-1 into TypeId.ArrayDim in package syntax", n, 1)
+}
+
+// guardedAtAllCalls: fn has callers and every static call of fn in the program is dominated by an
+// edge satisfying pred (in the caller, recursively for depth 2).
+func guardedAtAllCalls(p *an.Prog, fn *ssa.Function, pred func(an.Rel) bool, d int) bool {
+	if fn == nil || d > 2 {
+		return false
+	}
+	n := 0
+	for caller, sites := range p.Callers(fn) {
+		for _, s := range sites {
+			n++
+			if g, _ := an.GuardedBy(s, pred); g {
+				continue
+			}
+			if caller == fn || !guardedAtAllCalls(p, caller, pred, d+1) {
+				return false
+			}
+		}
+	}
+	return n > 0
+}
